@@ -349,8 +349,11 @@ class HistogramBase(abc.ABC):
                     for array in (self.frequencies, self.errors2):
                         if np.any(array % 1.0):
                             raise ValueError("Data contain non-integer values.")
+            # Compare in a wide type (a Python scalar would be rounded to the array's type first)
+            lower = np.asarray(type_info.min, dtype=np.longdouble)
+            upper = np.asarray(type_info.max, dtype=np.longdouble)
             for array in (self.frequencies, self.errors2):
-                if np.any((array > type_info.max) | (array < type_info.min)):
+                if np.any((array > upper) | (array < lower)):
                     raise ValueError("Data contain values outside the specified range.")
 
         self._dtype = value
